@@ -86,8 +86,21 @@ INF = _Inf()
 inf = INF
 
 
+DTYPE_MODEL = False     # opt-in (H.enable_dtype_model): integer-tagged arrays report their integer dtype and reductions honour dtype=
+
+
 class SymArray(_np.ndarray):
     __array_priority__ = 100
+
+    @property
+    def dtype(self):
+        t = getattr(self, '_int_dtype', None) if DTYPE_MODEL else None
+        if t:
+            return globals()[t]
+        return _np.ndarray.dtype.__get__(self, type(self))
+
+    def sum(self, axis=None, dtype=None, out=None, keepdims=False, **k):
+        return sum(self, axis=axis, dtype=dtype, keepdims=keepdims)
 
     def __new__(cls, data):
         return _np.asarray(data, dtype=object).view(cls)
@@ -813,12 +826,21 @@ def _to_bool_array(c):
 # reductions
 # ---------------------------------------------------------------------------------------------
 
-def sum(a, axis=None, **k):
+def sum(a, axis=None, dtype=None, **k):
     a = asarray(a)
-    if a.dtype == bool:
+    if _np.ndarray.dtype.__get__(a, type(a)) == bool:
         return _np.sum(a, axis=axis)
-    r = _np.sum(_np.asarray(a, dtype=object), axis=axis, **{kk: v for kk, v in k.items() if kk in ('keepdims',)})
-    return _wrap(r) if isinstance(r, _np.ndarray) else r
+    tag = getattr(a, '_int_dtype', None)
+    r = _np.add.reduce(_np.asarray(a, dtype=object), axis=axis, **{kk: v for kk, v in k.items() if kk in ('keepdims',) and v})
+    r = _wrap(r) if isinstance(r, _np.ndarray) else r
+    if DTYPE_MODEL and (isinstance(dtype, _DType) or tag):
+        # accumulator type: the requested one, else numpy's default (integers narrower than the platform word are widened to it)
+        acc = dtype if isinstance(dtype, _DType) else globals()[('uint64' if tag.startswith('u') else 'int64')]
+        if acc.kind in 'iu':
+            r = _map1(lambda v: _cast_int(v, acc), r) if isinstance(r, _np.ndarray) else _cast_int(r, acc)
+            if isinstance(r, _np.ndarray):
+                r._int_dtype = acc.name
+    return r
 
 
 def mean(a, axis=None, **k):
@@ -1004,7 +1026,12 @@ class _DType:
         return self      # byte order is a property of the transport, which is lossless here
 
     def __eq__(self, o):
+        if o is object:
+            return True      # the storage of every symbolic array is an object array (engine-internal checks)
         return isinstance(o, _DType) and o.name == self.name
+
+    def __ne__(self, o):
+        return not self.__eq__(o)
 
     def __hash__(self):
         return hash(self.name)
